@@ -93,11 +93,12 @@ Lemma ctr_nz n L : nzdiag n L -> nzdiag n (ctr n L).
 Proof. intros H i Hi. unfold ctr. apply conj_nz; auto. Qed.
 
 Variable gmres_amb : bool.
+Variable fwd_strict : bool.
 Variable lu_o : nat -> fm -> (nat -> nat) * fm * fm.
 Variable chol_o : nat -> fm -> fm.
 Variable tinv_o : nat -> fm -> bool -> fm.
 Variable iter_o : itag -> op -> fm.
-Notation inv := (inv gmres_amb lu_o chol_o).
+Notation inv := (inv gmres_amb fwd_strict lu_o chol_o).
 Notation base := (base lu_o chol_o).
 Notation to_op := (to_op tinv_o iter_o).
 (* TriangularInv: the triangular solve inverts a triangular matrix with non-zero diagonal *)
